@@ -35,7 +35,7 @@
 #include <unistd.h>
 
 #define MAXFD 4096
-#define MAXRULE 32
+#define MAXRULE 128
 #define MAXMAP 64
 
 enum { OP_OPEN, OP_READ, OP_WRITE, OP_FSYNC, OP_TRUNC, OP_ALLOC, OP_RENAME, OP_UNLINK, OP_MKDIR, OP_LINK, OP_UTIME, OP_CLOSE, OP_MUT, OP_N };
